@@ -216,8 +216,15 @@ func writeParas(r *rt.Run, api string, paras []control.Paragraph, w *simio.Write
 	return
 }
 
+// c08ReadFaultAt >= 0 plans one transient read fault for the next readParas call.
+var c08ReadFaultAt = -1
+
 func readParas(r *rt.Run, data []byte) ([]control.Paragraph, error, *rt.Task) {
 	rd := simio.NewReader(r, "store", data)
+	if c08ReadFaultAt >= 0 {
+		rd.FailOnceAt(c08ReadFaultAt)
+		c08ReadFaultAt = -1
+	}
 	var out []control.Paragraph
 	var err error
 	task := r.Solo("reader", func() {
@@ -436,8 +443,18 @@ func runC08(r *rt.Run, tier string) {
 	prev := w0.Buf
 	cur := paras
 	for c := 1; c <= cycles; c++ {
+		transientRead := len(prev) > 0 && t.Bool(1, 8, "c08.readfault")
+		if transientRead {
+			// the source fails ONCE while the written form is read back: an error
+			// is fine, silently different content is not
+			c08ReadFaultAt = t.Draw(len(prev), "c08.readfaultpos")
+			r.Probe("transient-read-fault-while-reading-back")
+		}
 		got, err, task := readParas(r, prev)
 		if taskTrouble(r, "C08", "read", task) {
+			return
+		}
+		if err != nil && transientRead {
 			return
 		}
 		if err != nil {
@@ -524,5 +541,5 @@ func init() {
 		},
 		Assumptions: []string{"values are compared after removing one trailing newline (the statement's equality) and, for values built with the library's leading-newline multi-line marker, the marker", "lines that are exactly '.', blanks around a first line, and field names with ':' or leading '#' are outside the text format and not generated"},
 	})
-	propProbes["C08"] = []string{"encode-retried-after-transient-write-error", "encoder-mixes-structs-and-slices", "single-line-with-trailing-newline", "multi-line-with-trailing-newline", "two-empty-lines", "three-empty-lines", "four-empty-lines", "leading-marker", "three-or-more-paragraphs", "three-or-more-cycles"}
+	propProbes["C08"] = []string{"transient-read-fault-while-reading-back", "encode-retried-after-transient-write-error", "encoder-mixes-structs-and-slices", "single-line-with-trailing-newline", "multi-line-with-trailing-newline", "two-empty-lines", "three-empty-lines", "four-empty-lines", "leading-marker", "three-or-more-paragraphs", "three-or-more-cycles"}
 }
